@@ -4,6 +4,8 @@ areas(tier, seed): generated convex faces (3..8 corners, edges < 90 deg, 2..65 d
 (random, pole inside, pole as a corner, across the antimeridian, corner on +-180, prime meridian) and the closed meshes of
 meshgen.  Oracle: exact spherical excess (fan of triangles with the Van Oosterom-Strackee / l'Huilier-equivalent formula,
 cross-checked against Girard's interior-angle sum), computed from the very lon/lat handed to uxarray.
+Scenario equator_mirror_faces (_check_equator_mirror): faces with >= 4 corners symmetric about the equator (regular lon/lat cells,
+mirror-symmetric polygons), listed from every start corner, through the Cartesian-corner paths.
 """
 import math
 import random
@@ -415,6 +417,192 @@ def _check_batch(run, rng, faces, label, tier, distinct):
                  "the cached face_areas equal a fresh default computation", base_in)
 
 
+# ------------------------------------------------------------------------------------------------ equator-mirrored faces, Cartesian input
+def _lonlat_cell(lon0, dlon, L):
+    """regular lon/lat cell straddling the equator symmetrically, counter-clockwise from the SW corner"""
+    lon1 = ((lon0 + dlon + 180.0) % 360.0) - 180.0
+    return {"lon": np.array([lon0, lon1, lon1, lon0], float), "lat": np.array([-L, -L, L, L], float), "n": 4, "place": "lonlat_cell_on_equator"}
+
+
+def _mirror_polygon(lonc, r_deg, thetas, east_point):
+    """convex polygon with corners on the small circle of angular radius r_deg around (lonc, 0), symmetric about the equator:
+    northern corners at the azimuths thetas (rad, from east towards north, increasing), their mirror images in the south, optionally the
+    corner on the equator in the east.  Listed counter-clockwise from the south-westernmost corner, so that the first and the last listed
+    corners are mirror images (same longitude, opposite latitude).  The southern lon/lat are copies of the northern ones (lat negated)."""
+    r, lc = math.radians(r_deg), math.radians(lonc)
+    c = np.array([math.cos(lc), math.sin(lc), 0.0])
+    e = np.array([-math.sin(lc), math.cos(lc), 0.0])
+    N = np.array([math.cos(r) * c + math.sin(r) * (math.cos(t) * e + math.sin(t) * np.array([0.0, 0.0, 1.0])) for t in thetas])
+    lon_n, lat_n = _lonlat(N)
+    lon = list(lon_n[::-1])
+    lat = list(-lat_n[::-1])
+    if east_point:
+        E = math.cos(r) * c + math.sin(r) * e
+        lon.append(math.degrees(math.atan2(E[1], E[0])))
+        lat.append(0.0)
+    lon += list(lon_n)
+    lat += list(lat_n)
+    return {"lon": np.array(lon, float), "lat": np.array(lat, float), "n": len(lon), "place": "mirror_symmetric_about_equator"}
+
+
+def _equator_faces(rng, tier):
+    faces = []
+    # regular lon/lat cells (great-circle sides through the corners), prime meridian, antimeridian, anywhere
+    for lon0, dlon, L in ((0.0, 10.0, 10.0), (10.0, 10.0, 10.0), (-5.0, 10.0, 5.0), (175.0, 10.0, 10.0), (-130.0, 2.0, 1.0), (40.0, 5.0, 2.5),
+                          (90.0, 20.0, 10.0), (-90.0, 30.0, 15.0), (165.0, 30.0, 5.0), (-60.0, 1.0, 1.0), (120.0, 40.0, 20.0), (-20.0, 40.0, 25.0),
+                          (60.0, 4.0, 4.0), (-179.0, 8.0, 3.0)):
+        faces.append(_lonlat_cell(lon0, dlon, L))
+    n_rand = 36 if tier == "quick" else 360
+    for k in range(n_rand):
+        if k % 6 == 0:
+            faces.append(_lonlat_cell(float(rng.uniform(-180, 180)), float(rng.uniform(1, 40)), float(rng.uniform(0.5, 25))))
+            continue
+        n = 4 + k % 5                       # 4..8 corners
+        kn, east = n // 2, bool(n % 2)
+        while True:
+            th = np.sort(rng.uniform(0.3 if east else 0.15, math.pi - 0.15, kn))
+            if kn == 1 or np.diff(th).min() >= 0.3:
+                break
+        faces.append(_mirror_polygon(float(rng.uniform(-180, 180)), float(rng.uniform(1.0, 32.0)), th, east))
+    return faces
+
+
+def _check_equator_mirror(run, rng, tier, distinct):
+    """Cartesian corner input on faces (>= 4 corners) symmetric about the equator, each listed from EVERY start corner: two listed
+    neighbours that are mirror images have identical x and y and differ in z only."""
+    scen = "equator_mirror_faces"
+    faces = _equator_faces(rng, tier)
+    P = [_vec(f["lon"], f["lat"]) for f in faces]
+    for p, f in zip(P, faces):
+        assert _convex_ccw(p) and _max_edge_deg(p) < 90.0 and _diam_deg(p) <= 65.0, "generated face outside the quantifier"
+        assert f["lon"][0] == f["lon"][-1] and f["lat"][0] == -f["lat"][-1] != 0.0, "first/last corners are not mirror images"
+        distinct.add((tuple(np.round(f["lon"], 9)), tuple(np.round(f["lat"], 9))))
+    ex = np.array([exact_area(p) for p in P])
+    gi = np.array([girard_area(p) for p in P])
+    assert np.all(np.abs(ex - gi) <= 1e-10 + 1e-9 * ex), "oracle self-check failed (fan excess vs Girard)"
+    diam = np.array([_diam_deg(p) for p in P])
+    tol = np.array([_band(d)[1] for d in diam])
+    small = diam <= 30.0
+    base_in = {"batch": scen, "n_faces": len(faces),
+               "construction": "isolated convex faces symmetric about the equator (regular lon/lat cells and mirror-symmetric 4..8-gons) in one grid "
+                               "(from_topology), all faces listed from the given start corner"}
+    from uxarray.grid.area import get_all_face_area_from_coords
+    seen = set()
+
+    def fail(key, *a, **kw):
+        if key not in seen:
+            seen.add(key)
+            run.fail(key, *a, **kw)
+
+    ac0 = None
+    for s in range(8):
+        shift = [s] * len(faces)
+        lon, lat, rows = _assemble(faces, shift=shift)
+        # is (first, last) of the listed ring a mirror pair ?  (part of the key: the two kinds of start corner)
+        mirrored = np.array([lon[r[0]] == lon[r[f["n"] - 1]] and lat[r[0]] == -lat[r[f["n"] - 1]] and lat[r[0]] != 0.0
+                             for r, f in zip(rows, faces)])
+        kind = np.where(mirrored, "first_last_mirrored", "other_start")
+        inp = dict(base_in, start_shift=s)
+        g = _grid(lon, lat, rows)
+        all_ = _areas(run, g, f"{scen}:latlon=True", inp)
+        ac = _areas(run, g, f"{scen}:latlon=False", inp, latlon=False)
+        cands = []                      # (name of the Cartesian path, areas)
+        if ac is not None:
+            cands.append(("compute_face_areas(latlon=False)", ac))
+        # grid whose source has Cartesian node coordinates only (x, y of mirrored corners bit-identical)
+        x, y, z = mg.xyz_of(lon, lat)
+        ds = xr.Dataset({"node_x": (["n_node"], x), "node_y": (["n_node"], y), "node_z": (["n_node"], z),
+                         "face_node_connectivity": (["n_face", "n_max_face_nodes"], rows.copy())})
+        try:
+            gx = ux.Grid.from_dataset(ds, source_grid_spec="UGRID")
+            axc, _ = gx.compute_face_areas(latlon=False)
+            cands.append(("grid_from_xyz_only_source.compute_face_areas(latlon=False)", np.array(axc, float)))
+        except Exception as e:  # noqa: BLE001
+            fail(f"raises:{type(e).__name__}:{scen}:xyz_only_source:latlon=False", f"compute_face_areas(latlon=False) on an xyz-only grid raises "
+                 f"{type(e).__name__}: {e}", "the area reported for a face", inp)
+        # the coordinate-level entry point with coords_type='cartesian'
+        try:
+            npf = np.array([f["n"] for f in faces], dtype=np.int64)
+            ad, _ = get_all_face_area_from_coords(np.array(x, float), np.array(y, float), np.array(z, float), rows, npf, 3,
+                                                  "triangular", 4, "cartesian")
+            cands.append(("get_all_face_area_from_coords(coords_type='cartesian')", np.array(ad, float)))
+        except Exception as e:  # noqa: BLE001
+            fail(f"raises:{type(e).__name__}:{scen}:get_all_face_area_from_coords:cartesian", f"get_all_face_area_from_coords(..., 'cartesian') raises "
+                 f"{type(e).__name__}: {e}", "the area reported for a face", inp)
+
+        for name, a in cands:
+            run.cases += 3 * len(faces)
+            # never negative
+            if np.any(a < 0) or not np.all(np.isfinite(a)):
+                i = int(np.argmin(np.where(np.isfinite(a), a, -np.inf)))
+                fail(f"negative_or_nan_area:{scen}:{name}", "a face area from Cartesian corners is negative or not finite",
+                     "the area is never negative", dict(inp, face=_face_desc(faces[i])), observed=float(a[i]))
+                continue
+            # exact spherical excess, default rule, accuracy band
+            bad = _rel(a, ex) > tol
+            for i in np.flatnonzero(bad):
+                d, t = _band(diam[i])
+                key = f"accuracy:default_rule:cartesian_input:{scen}:{kind[i]}:{name}:band<={d:g}deg"
+                if key in seen:
+                    continue
+                fail(key, f"default-rule area from Cartesian corners off by relative {float(_rel(a, ex)[i]):.3g} (> {t:g})",
+                     f"with the default rule within a relative {t:g} for convex faces up to {d:g} degrees across (Cartesian corner coordinates)",
+                     dict(inp, face=_face_desc(faces[i]), corners=int(faces[i]["n"]), degrees_across=float(diam[i])),
+                     observed=float(a[i]), expected=float(ex[i]))
+            # Cartesian vs lon/lat input: same computation
+            if all_ is not None:
+                r = _rel(a, all_)
+                for kd in ("first_last_mirrored", "other_start"):
+                    sel = (kind == kd) & (r > REL)
+                    if sel.any():
+                        i = int(np.flatnonzero(sel)[np.argmax(r[sel])])
+                        fail(f"latlon_vs_cartesian:{scen}:{kd}:{name}", f"{name} differs from compute_face_areas(latlon=True)",
+                             "the value does not depend on whether spherical or Cartesian corner coordinates are used",
+                             dict(inp, face=_face_desc(faces[i]), corners=int(faces[i]["n"])), observed=float(a[i]), expected=float(all_[i]))
+        if ac is None:
+            continue
+        # start corner, Cartesian path: against the listing from the first start corner (other fan: band accuracy)
+        if ac0 is None:
+            ac0, shift0 = ac, s
+        else:
+            nn = np.array([f["n"] for f in faces])
+            same = (s % nn) == (shift0 % nn)
+            run.cases += len(faces)
+            over = np.abs(ac - ac0) > np.where(same, REL * ex, 2 * tol * ex + REL * ex)
+            if over.any():
+                i = int(np.flatnonzero(over)[0])
+                fail(f"start_corner:cartesian_input:{scen}", "the area of a polygon from Cartesian corners changes beyond the accuracy band when the "
+                     "start corner changes", "the value does not depend on which corner the face's node list starts from (to the band accuracy)",
+                     dict(inp, face=_face_desc(faces[i]), corners=int(faces[i]["n"]), compared_with_start_shift=shift0),
+                     observed=float(ac[i]), expected=float(ac0[i]))
+        # rigid rotation, Cartesian path (same start corners: the same fan, rotated)
+        mesh = {"name": scen, "lon": lon, "lat": lat, "faces": rows, "closed": False, "n_node": len(lon), "n_face": len(faces)}
+        axis = rng.normal(size=3)
+        m3 = mg.rotate_mesh(mesh, axis, float(rng.uniform(5, 355)))
+        ar = _areas(run, _grid(m3["lon"], m3["lat"], m3["faces"]), f"{scen}:rotated:latlon=False", inp, latlon=False)
+        if ar is not None:
+            run.cases += len(faces)
+            r = _rel(ar, ac)
+            if np.any(r > REL):
+                i = int(np.argmax(r))
+                fail(f"rotation:cartesian_input:{scen}:{kind[i]}", "the area of a face from Cartesian corners changes under a rigid rotation of the grid",
+                     "the value does not depend on a rigid rotation of the grid", dict(inp, face=_face_desc(faces[i]), axis=axis.tolist()),
+                     observed=float(ac[i]), expected=float(ar[i]))
+        # convergence on the Cartesian path: highest gaussian order on the faces <= 30 deg across
+        if s in (0, 1) and small.any():
+            a10 = _areas(run, g, f"{scen}:gaussian:10:latlon=False", inp, "gaussian", 10, latlon=False)
+            if a10 is not None:
+                run.cases += int(small.sum())
+                r = np.where(small, _rel(a10, ex), 0.0)
+                if np.any(r > 1e-6):
+                    i = int(np.argmax(r))
+                    fail(f"convergence:gaussian:top_order_error:cartesian_input:{scen}:{kind[i]}",
+                         f"relative error {float(r[i]):.3g} at gaussian order 10 from Cartesian corners on a face <= 30 deg across",
+                         "converges to the exact spherical excess as the quadrature order rises", dict(inp, face=_face_desc(faces[i])),
+                         observed=float(a10[i]), expected=float(ex[i]))
+    return faces
+
+
 def _check_meshes(run, tier, seed, distinct):
     """catalogue meshes: per-face accuracy for the faces inside the quantifier, 4*pi for closed meshes, cache"""
     for m in mg.catalogue(tier, seed):
@@ -529,9 +717,12 @@ def areas(tier, seed):
             _check_batch(run, rng, faces, f"generated_{dlo:g}-{dhi:g}deg", tier, distinct)
             if len(samples) < 3:
                 samples.append(_face_desc(faces[0]))
+    eq_faces = _check_equator_mirror(run, np.random.default_rng(seed * 7919 + 55), tier, distinct)
     _check_meshes(run, tier, seed, distinct)
     _check_tables(run)
-    bound = (f"{3 * reps} batches x {n_per} generated convex faces (3..8 corners, 2..65 deg across, edges < 90 deg; placed at random, around both "
+    bound = (f"{len(eq_faces)} convex faces symmetric about the equator (regular lon/lat cells, mirror-symmetric 4..8-gons; 1..65 deg across), each "
+             f"listed from every start corner, Cartesian input (compute_face_areas(latlon=False), xyz-only source, get_all_face_area_from_coords "
+             f"'cartesian') against the exact excess, lon/lat input, start corner, rotation, gaussian order 10; "f"{3 * reps} batches x {n_per} generated convex faces (3..8 corners, 2..65 deg across, edges < 90 deg; placed at random, around both "
              f"poles, with a pole as a corner, across the antimeridian, with a corner on +-180, on the prime meridian), each with start-corner "
              f"shift, renumbering, rigid rotation, Cartesian input, xyz-only source, fan subdivisions, all 15 rule/order pairs, cache sequences; "
              f"the meshgen catalogue ({tier}) for per-face accuracy and 4*pi of closed meshes; all 15 quadrature tables; area functions run compiled")
